@@ -553,7 +553,16 @@ func (p *parser) srcOf(from int) string {
 	if from > len(p.src) || to > len(p.src) || from > to {
 		return ""
 	}
-	return strings.Join(strings.Fields(p.src[from:to]), " ")
+	s := p.src[from:to]
+	// drop trailing comment lines that precede the next clause
+	var keep []string
+	for _, ln := range strings.Split(s, "\n") {
+		if i := strings.Index(ln, "//"); i >= 0 {
+			ln = ln[:i]
+		}
+		keep = append(keep, ln)
+	}
+	return strings.Join(strings.Fields(strings.Join(keep, " ")), " ")
 }
 
 func (p *parser) parseClause() *Clause {
